@@ -364,17 +364,17 @@ pub fn configs(tier: crate::registry::Tier, _seed: u64) -> Vec<crate::registry::
     for upper in [true, false] {
         for stored_zeros in [false, true] {
             for (r, k) in [(1, 1), (2, 1), (2, 2), (3, 1)] {
-                v.push(entry(Kernels { ring: RingSel::Z, kind: Kind::Solve, upper, r, m: k, n: 0, stored_zeros, b: 2 }, 1500, 90.0));
+                v.push(entry(Kernels { ring: RingSel::Z, kind: Kind::Solve, upper, r, m: k, n: 0, stored_zeros, b: 2 }, 6000, 90.0));
             }
             for (r, m, n) in [(0, 2, 2), (1, 2, 2), (2, 2, 2), (1, 3, 2), (2, 3, 3), (1, 1, 3), (2, 2, 3)] {
-                v.push(entry(Kernels { ring: RingSel::Z, kind: Kind::Schur, upper, r, m, n, stored_zeros, b: 2 }, 1500, 90.0));
+                v.push(entry(Kernels { ring: RingSel::Z, kind: Kind::Schur, upper, r, m, n, stored_zeros, b: 2 }, 6000, 90.0));
             }
         }
     }
     v.push(entry(Kernels { ring: RingSel::Z, kind: Kind::Solve, upper: true, r: 0, m: 1, n: 0, stored_zeros: false, b: 1 }, 5, 5.0));
     for stored_zeros in [false, true] {
         for (m, n) in [(2, 2), (2, 3), (3, 2), (3, 3), (1, 3), (0, 2), (2, 0)] {
-            v.push(entry(Kernels { ring: RingSel::Z, kind: Kind::Decomp, upper: false, r: 0, m, n, stored_zeros, b: 1 }, 2000, 90.0));
+            v.push(entry(Kernels { ring: RingSel::Z, kind: Kind::Decomp, upper: false, r: 0, m, n, stored_zeros, b: 1 }, 8000, 90.0));
         }
     }
     // units other than +-1: Z[i] (units +-1, +-i as a solver-side precondition) and Q (any non-zero diagonal)
